@@ -19,6 +19,56 @@ type acquireSite struct {
 	recv     ssa.Value
 	recvPath string
 	amount   ssa.Value
+	// inner: the Acquire call inside a helper (acquireCores(n, ...) bool) when `call` is a call of
+	// that helper in the job path; nil for a direct Acquire
+	inner *acquireSite
+}
+
+// releaseHelperMatches: site calls (or defers) a method of the job manager that releases, on every
+// path, the semaphore of acq with the amount that the caller acquired.
+func releaseHelperMatches(site ssa.CallInstruction, release *ssa.Function, acq acquireSite) bool {
+	cc := site.Common()
+	g := cc.StaticCallee()
+	if g == nil || g.Blocks == nil || g == release {
+		return false
+	}
+	want := semName(acq)
+	md := &an.MustDo{Depth: 0, Pred: func(in ssa.Instruction) bool {
+		c, ok := in.(*ssa.Call)
+		if !ok || c.Call.StaticCallee() != release || len(c.Call.Args) != 2 {
+			return false
+		}
+		// the same semaphore: a field of the receiver with the same name, or a parameter that
+		// receives the caller's semaphore value
+		recvOK := false
+		if prm, isP := c.Call.Args[0].(*ssa.Parameter); isP {
+			for i, q := range g.Params {
+				if q == prm && i < len(cc.Args) && acq.recv != nil && (cc.Args[i] == acq.recv || an.Path(cc.Args[i]) == acq.recvPath) {
+					recvOK = true
+				}
+			}
+		} else {
+			pth := an.Path(c.Call.Args[0])
+			if i := strings.LastIndex(pth, "."); i >= 0 {
+				pth = pth[i+1:]
+			}
+			recvOK = pth == want
+		}
+		if !recvOK {
+			return false
+		}
+		prm, isP := c.Call.Args[1].(*ssa.Parameter)
+		if !isP {
+			return false
+		}
+		for i, q := range g.Params {
+			if q == prm && i < len(cc.Args) && cc.Args[i] == acq.amount {
+				return true
+			}
+		}
+		return false
+	}}
+	return md.Fn(g)
 }
 
 // closureCallsRelease: does the (deferred / called) function value call
@@ -102,6 +152,63 @@ func c12Local(c *an.Ctx) {
 			}
 		})
 	}
+	// an Acquire inside a helper of the job path (acquireCores(n, res, md) bool): every call of the
+	// helper in Enqueue is a site whose amount / semaphore are the call's arguments
+	{
+		var extra []acquireSite
+		for i := range sites {
+			in := sites[i]
+			h := in.fn
+			if an.Outermost(h) == enqueue || h.Parent() != nil {
+				continue
+			}
+			ai, ri := -1, -1
+			for k, q := range h.Params {
+				if ssa.Value(q) == in.amount {
+					ai = k
+				}
+				if ssa.Value(q) == in.recv {
+					ri = k
+				}
+			}
+			if ai < 0 || h.Signature.Results().Len() != 1 || !isBoolType(h.Signature.Results().At(0).Type()) {
+				continue
+			}
+			for caller, css := range p.Callers(h) {
+				if an.Outermost(caller) != enqueue {
+					continue
+				}
+				for _, cs := range css {
+					call, ok := cs.(*ssa.Call)
+					if !ok || ai >= len(call.Call.Args) {
+						continue
+					}
+					v := acquireSite{call: call, fn: caller, amount: call.Call.Args[ai], recvPath: in.recvPath, inner: &sites[i]}
+					if ri >= 0 && ri < len(call.Call.Args) {
+						v.recv = call.Call.Args[ri]
+						v.recvPath = an.Path(v.recv)
+					}
+					extra = append(extra, v)
+				}
+			}
+		}
+		if len(extra) > 0 {
+			// the inner sites are judged through their callers
+			var kept []acquireSite
+			for i := range sites {
+				isInner := false
+				for _, e := range extra {
+					if e.inner == &sites[i] {
+						isInner = true
+					}
+				}
+				if !isInner {
+					kept = append(kept, sites[i])
+				}
+			}
+			sites = append(kept, extra...)
+		}
+	}
 	inEnqueue := 0
 	for _, s := range sites {
 		if an.Outermost(s.fn) != enqueue {
@@ -117,14 +224,18 @@ func c12Local(c *an.Ctx) {
 			Barrier: func(in ssa.Instruction) bool {
 				switch x := in.(type) {
 				case *ssa.Defer:
-					return releaseMatches(x, release, site)
+					return releaseMatches(x, release, site) || releaseHelperMatches(x, release, site)
 				case *ssa.Call:
-					return releaseMatches(x, release, site)
+					return releaseMatches(x, release, site) || releaseHelperMatches(x, release, site)
 				}
 				return false
 			},
 			BarrierEdge: func(from, to *ssa.BasicBlock) bool {
 				return an.EdgeHolds(from, to, func(r an.Rel) bool {
+					if site.inner != nil {
+						// the helper reported failure
+						return r.Op == token.ILLEGAL && !r.Truth && r.X == ssa.Value(site.call)
+					}
 					// err != nil edge of this acquire
 					return r.Op == token.NEQ && r.X == ssa.Value(site.call) && an.IsNil(r.Y)
 				})
@@ -135,14 +246,18 @@ func c12Local(c *an.Ctx) {
 		werr := c.NeedFunc(pkgCore, "(*Metadata).WriteErrorString")
 		if werr != nil {
 			// on the err != nil edge every path to return passes WriteErrorString
-			for _, b := range s.fn.Blocks {
+			fs := s
+			if s.inner != nil {
+				fs = *s.inner
+			}
+			for _, b := range fs.fn.Blocks {
 				for _, succ := range b.Succs {
 					cnd, t, ok := an.EdgeCond(b, succ)
 					if !ok {
 						continue
 					}
 					r := an.Normalize(cnd, t)
-					if r.Op == token.NEQ && r.X == ssa.Value(s.call) && an.IsNil(r.Y) {
+					if r.Op == token.NEQ && r.X == ssa.Value(fs.call) && an.IsNil(r.Y) {
 						hit := !reachExitAvoiding(succ, func(in ssa.Instruction) bool { return an.CalleeIs(in, werr) })
 						c.Check("K3", key+":failure-reported", s.call.Pos(), hit,
 							"a failed Acquire (request larger than the limit) must be reported through WriteErrorString, otherwise the job is silently lost")
